@@ -152,6 +152,11 @@ func classify(sql string) string {
 func errResult(e *MyErr) []result { return []result{{err: &myErr{e.Code, e.State, e.Msg}}} }
 
 func (s *Session) execLocked(sql string, args []interface{}, je *JournalEntry) []result {
+	if s.xaID != "" && s.e.xa[s.xaID] == nil {
+		// the branch this connection was attached to has been finished from another connection
+		s.xaID = ""
+		s.tx = nil
+	}
 	q := strings.TrimSpace(sql)
 	for strings.HasSuffix(q, ";") { // leniency: trailing semicolons ignored
 		q = strings.TrimSpace(strings.TrimSuffix(q, ";"))
